@@ -23,13 +23,17 @@ E == Rec[l]
 vars == <<l, t, exp, nonce, lde, role, absorbed, k, pdraws, pints, vdone, grindOK>>
 
 L(s) == NumFriLayers(s)
-NumMsgs(s) == 6 + L(s)
-\* challenges that must be drawn after the i-th message and before the next one
+A(s) == IF AuxW(s) > 0 THEN 1 ELSE 0                             \* one more trace commitment with an auxiliary segment
+NumMsgs(s) == 6 + A(s) + L(s)
+\* challenges that must be drawn after the i-th message and before the next one.  Messages: 1 context and public inputs,
+\* 2 main trace root, [3 auxiliary trace root], then constraint root, out-of-domain trace frame, out-of-domain
+\* evaluations, FRI layer roots, remainder
 Required(s, i) ==
-    CASE i = 2 -> s.width + s.nasserts                           \* constraint composition coefficients
-      [] i = 3 -> 1                                              \* out-of-domain point
-      [] i = 5 -> s.width + NumCompositionCols(s)                \* DEEP coefficients
-      [] i >= 6 /\ i <= 5 + L(s) -> 1                            \* FRI folding challenge per layer
+    CASE i = 2 /\ A(s) = 1 -> s.lag * s.ln + s.auxr              \* Lagrange (GKR) randomness, auxiliary random elements
+      [] i = 2 + A(s) -> (s.width + NAux(s)) + (s.nasserts + s.nauxa) + s.lag * (s.ln + 1)   \* composition coefficients
+      [] i = 3 + A(s) -> 1                                       \* out-of-domain point
+      [] i = 5 + A(s) -> TotalWidth(s) + NumCompositionCols(s) + s.lag                      \* DEEP coefficients
+      [] i >= 6 + A(s) /\ i <= 5 + A(s) + L(s) -> 1              \* FRI folding challenge per layer
       [] OTHER -> 0
 
 Init == /\ l = 1 /\ t = [ln |-> 0] /\ exp = <<>> /\ nonce = <<>> /\ lde = 0 /\ role = "" /\ absorbed = 0 /\ k = 0
